@@ -260,6 +260,22 @@ impl Read for Response {
     }
 }
 
+#[cfg(feature = "verif-hooks")]
+impl Response {
+    /// Which content decoder was selected for this response (`plain`, `gzip` or `deflate`).
+    #[doc(hidden)]
+    pub fn verif_coding(&self) -> &'static str {
+        self.reader.verif_coding()
+    }
+
+    /// The charset `text()` / `text_reader()` will decode with.
+    #[cfg(feature = "charsets")]
+    #[doc(hidden)]
+    pub fn verif_charset(&self) -> &'static str {
+        self.reader.verif_charset()
+    }
+}
+
 #[test]
 fn test_read_request_head() {
     let response = b"HTTP/1.1 200 OK\r\nContent-Length: 5\r\nContent-Type: text/plain\r\n\r\nhello";
